@@ -51,5 +51,8 @@ Exec(K) ==
 \* Cancel(reason) from the host: compare-and-swap from "none"; possible at any time
 ExtCancel(r) == cancel' = (IF cancel = 0 THEN r ELSE cancel) /\ UNCHANGED <<steps, max, phase, pc, execs>>
 Uncancel == phase = "idle" /\ cancel' = 0 /\ UNCHANGED <<steps, max, phase, pc, execs>>
+\* the host changes the limit between executions: the limit is a bound on the thread's cumulative step counter,
+\* whatever the counter is at that moment (a limit at or below it stops the next execution at its first instruction)
+SetLimit(n) == phase = "idle" /\ max' = n /\ UNCHANGED <<steps, cancel, phase, pc, execs>>
 
 =============================================================================
